@@ -30,10 +30,12 @@ class RxSite:
         return getattr(self.node, "lineno", 0)
 
 
-def compiled_globals(model: Model, folder: Folder) -> Dict[str, tuple]:
+def compiled_globals(model: Model, folder: Folder, modules=None) -> Dict[str, tuple]:
     """qualified global name -> (pattern, flags) for NAME = re.compile(...)"""
     out = {}
     for mn, m in model.modules.items():
+        if modules is not None and mn not in modules:
+            continue
         for name, sts in m.globals_.items():
             for st in sts:
                 v = getattr(st, "value", None)
@@ -52,12 +54,14 @@ def compiled_globals(model: Model, folder: Folder) -> Dict[str, tuple]:
     return out
 
 
-def find_sites(model: Model) -> List[RxSite]:
+def find_sites(model: Model, modules=None) -> List[RxSite]:
+    """modules: restrict to the use sites and compiled patterns of these modules (a check about the filter parser does not need the
+    schema patterns to fold)"""
     folder = Folder(model)
-    comp = compiled_globals(model, folder)
+    comp = compiled_globals(model, folder, modules)
     sites: List[RxSite] = []
     for fq, fi in list(model.functions.items()):
-        if isinstance(fi.node, ast.Lambda):
+        if isinstance(fi.node, ast.Lambda) or (modules is not None and fi.module not in modules):
             continue
         nested_ids = {id(x) for d in ast.walk(fi.node) if isinstance(d, (ast.FunctionDef, ast.Lambda)) and d is not fi.node for x in ast.walk(d)}
         for n in ast.walk(fi.node):
